@@ -150,7 +150,9 @@ pub fn run(ctx: &Ctx) {
                 if !ctx.want(case) {
                     continue;
                 }
+                let _g = op_begin("send-under-enobufs-then-receive", case);
                 let (problems, ok, attempts, rerrs) = run_one(&sz, shape, att, pat);
+                drop(_g);
                 rep.case(&(shape, att, pat, sz.sndbuf), true);
                 rep.stat("sends", 1);
                 rep.stat(if ok { "sends_ok" } else { "sends_err" }, 1);
